@@ -26,11 +26,18 @@ package main
 //             preload is interrupted - which errors.Cause does not see through: a component failure)
 //   prov pos additionally: load = the provider hands out no ammo and blocks (a slow preload) until its context is done
 //   prov/agg ret additionally: ctxw = the context's error wrapped with pkg/errors (still the context's error)
-// output : res=<cls> canc=<0|1> lat=<fast|mid|slow|-> wait=<ok|hang> leak=<n> eng=<pool results Engine.Run consumed>
+// output : res=<cls> canc=<0|1> lat=<fast|mid|slow|-> wait=<ok|hang> busy=<calls of mock components still in progress
+//          when Engine.Wait returned> leak=<n> eng=<pool results Engine.Run consumed>
 //          (a failure marked `!` was read after the caller's cancel was complete) engc=<0|1> sup=<pool results that were suppressed>
 //          pK.main=<..> pK.aw=<trace> pK.guns=<created> pK.closes=<sorted Close counts of the created guns>
 //          pK.errs=<component errors the mocks of pool K actually returned, sorted>
 //          [cli=<what awaitPandoraTermination did>] and per real-gun pool pK.gcl / pK.icl / pK.srvopen (real.go)
+//   blk     : <phase>[@k]  (optional pool token) the k-th call of that phase in this pool BLOCKS and ignores every context
+//             until the harness has seen Engine.Run return (or, failing that, for blkMax): newgun@k (0 = the warm-up
+//             call) | warm | close@k (k-th Gun.Close, 1-based) | sched@k | bind@k | prov | agg (the start of
+//             Provider.Run / Aggregator.Run) | shot@k.  cancel=blk[@pK]: the caller's cancel fires when that stub has
+//             been entered; cancel=blkq[@pK]: … and every other pool's Run has finished.  Observed: blk=run (every
+//             stub that was entered was released because Engine.Run had returned) | deadline (one waited blkMax) | -
 //   further input tokens: cancel=at:<point>, hold=…, sig=… (sched.go), cli=run|int|term (the run goes through
 //   cli.runEngine + cli.awaitPandoraTermination), pool tokens rg:<registered gun> and su:<startup schedule> (real.go)
 //   canc=1: the planned cancel fired before Engine.Run returned. lat: time from that cancel to the return of
@@ -75,6 +82,14 @@ const (
 	latFast     = 500 * time.Millisecond
 	latSlow     = 1500 * time.Millisecond
 	sigFallback = 120 * time.Millisecond
+	// cli/cli.go: awaitTimeout of the failure path of awaitPandoraTermination
+	cliAwaitTimeout = 3 * time.Second
+	// a blocking stub (blk:) gives up when Engine.Run has not returned this long after the stub was entered
+	blkMax            = 2000 * time.Millisecond
+	blkCancelFallback = 150 * time.Millisecond
+	// after that many runs that were late although nothing but a context-ignoring stub stood in the way the
+	// remaining blk cases are not run (each costs blkMax)
+	maxSlows = 6
 )
 
 // ---------------------------------------------------------------- plan
@@ -102,6 +117,8 @@ type poolSpec struct {
 	rg                string // "" | name of a registered gun factory (real.go)
 	su                string // "" (once) | step | inf
 	suMs              int
+	blk               string // "" | newgun | warm | close | sched | bind | prov | agg | shot: that call blocks (sched.go)
+	blkK              int
 }
 
 type plan struct {
@@ -112,6 +129,7 @@ type plan struct {
 	cancelAt   *pointRef
 	holds      []holdRule
 	cli        string // "" | run | int | term
+	cliVar     string // "" | 2 (int2 / term2: a second signal while Engine.Wait is blocked) | T (runT: the tasks of a failed run outlast the cli's 3 s await timeout)
 	sigAt      *pointRef
 	rep        int
 }
@@ -192,7 +210,7 @@ func parsePool(s string) (poolSpec, error) {
 		case "slow":
 			if v != "-" {
 				ps.slow = v
-				for _, c := range []string{"prov", "agg"} {
+				for _, c := range []string{"prov", "agg", "close"} {
 					if strings.HasPrefix(v, c) && len(v) > len(c) {
 						ps.slow = c
 						ps.slowMs, err = strconv.Atoi(v[len(c):])
@@ -229,6 +247,21 @@ func parsePool(s string) (poolSpec, error) {
 			}
 			if err == nil && (ps.suMs < 0 || ps.suMs > 1000) {
 				return ps, fmt.Errorf("bad su %q", v)
+			}
+		case "blk":
+			if v == "-" {
+				break
+			}
+			name, arg := v, 0
+			if j := strings.IndexByte(v, '@'); j >= 0 {
+				name = v[:j]
+				arg, err = strconv.Atoi(v[j+1:])
+			}
+			switch name {
+			case "newgun", "warm", "close", "sched", "bind", "prov", "agg", "shot":
+				ps.blk, ps.blkK = name, arg
+			default:
+				return ps, fmt.Errorf("bad blk %q", v)
 			}
 		case "ek":
 			switch v {
@@ -321,7 +354,7 @@ func parsePlan(input string) (*plan, error) {
 		c = "at"
 	}
 	switch c {
-	case "none", "pre", "warm", "bind", "shot", "drain", "after", "at":
+	case "none", "pre", "warm", "bind", "shot", "drain", "after", "at", "blk", "blkq":
 	default:
 		return nil, fmt.Errorf("bad cancel %q", c)
 	}
@@ -333,6 +366,10 @@ func parsePlan(input string) (*plan, error) {
 	case "", "-":
 	case "run", "int", "term":
 		pl.cli = kv["cli"]
+	case "int2", "term2":
+		pl.cli, pl.cliVar = strings.TrimSuffix(kv["cli"], "2"), "2"
+	case "runT":
+		pl.cli, pl.cliVar = "run", "T"
 	default:
 		return nil, fmt.Errorf("bad cli %q", kv["cli"])
 	}
@@ -358,6 +395,56 @@ type caseRt struct {
 	hk         *hookRt
 	doneMu     sync.Mutex
 	cancelDone time.Time
+
+	// blocking stubs (blk:)
+	release     chan struct{} // closed when the harness has seen Engine.Run return (or has given up waiting for it)
+	releaseOnce sync.Once
+	blkEntered  atomic.Int64
+	blkLate     atomic.Int64 // stubs that waited blkMax
+	blkMax      time.Duration
+	poolsDone   func() int // pools whose Run has finished (the engine's own log)
+}
+
+func (c *caseRt) releaseStubs() { c.releaseOnce.Do(func() { close(c.release) }) }
+
+// blockIf: the planned blocking call.  It ignores every context: it returns when the harness lets it, i.e. after
+// Engine.Run has been seen to return, or after blkMax.  Entering it is the phase `blk` of the caller's cancel.
+func (p *poolRt) blockIf(phase string, k int) {
+	if p.spec.blk != phase || p.spec.blkK != k {
+		return
+	}
+	c := p.c
+	c.blkEntered.Add(1)
+	if c.pl.cancelPool == p.idx {
+		if c.pl.cancel == "blkq" && c.poolsDone != nil {
+			// … only when every other pool has finished: nobody else is left to notice the cancel
+			for dl := time.Now().Add(500 * time.Millisecond); c.poolsDone() < len(c.pl.pools)-1 && time.Now().Before(dl); {
+				time.Sleep(200 * time.Microsecond)
+			}
+			time.Sleep(2 * time.Millisecond)
+			c.hook(p.idx, "blkq", 0)
+		}
+		c.hook(p.idx, "blk", 0)
+	}
+	if c.pl.cancel != "none" && c.pl.cli == "" {
+		// the planned cancel belongs to a moment the run may never reach (a point on a path not taken, a phase of a
+		// pool that has failed before): it then comes now, while this call is in progress
+		for dl := time.Now().Add(blkCancelFallback); c.cancelAt.Load() == 0 && time.Now().Before(dl); {
+			select {
+			case <-c.release:
+				return
+			case <-time.After(200 * time.Microsecond):
+			}
+		}
+		c.doCancel()
+	}
+	tm := time.NewTimer(c.blkMax)
+	defer tm.Stop()
+	select {
+	case <-c.release:
+	case <-tm.C:
+		c.blkLate.Add(1)
+	}
 }
 
 func (c *caseRt) doCancel() {
@@ -399,14 +486,16 @@ type poolRt struct {
 	idx  int
 	spec poolSpec
 
-	ammoCh    chan core.Ammo
-	reports   atomic.Int64
-	aggTrig   chan struct{}
-	aggOnce   sync.Once
-	gunCalls  atomic.Int64
-	bindCalls atomic.Int64
-	shotCalls atomic.Int64
-	schedCall atomic.Int64
+	ammoCh     chan core.Ammo
+	reports    atomic.Int64
+	aggTrig    chan struct{}
+	aggOnce    sync.Once
+	gunCalls   atomic.Int64
+	bindCalls  atomic.Int64
+	shotCalls  atomic.Int64
+	schedCall  atomic.Int64
+	closeCalls atomic.Int64
+	busy       atomic.Int64 // calls of this pool's mock components that are in progress
 
 	mu   sync.Mutex
 	guns []*gunBase
@@ -414,6 +503,12 @@ type poolRt struct {
 
 	realNew       func() (core.Gun, error) // rg pools
 	gcl, icl, gwu bool
+}
+
+// enter: a call of a mock component begins; the returned func ends it
+func (p *poolRt) enter() func() {
+	p.busy.Add(1)
+	return func() { p.busy.Add(-1) }
 }
 
 // verr makes the error a mock component returns and records that it did
@@ -472,7 +567,9 @@ type provMock struct{ p *poolRt }
 
 func (m provMock) Run(ctx context.Context, _ core.ProviderDeps) error {
 	p := m.p
+	defer p.enter()()
 	s := p.spec.prov
+	p.blockIf("prov", 0)
 	if s.pos == "pre" {
 		close(p.ammoCh)
 		return p.retOf(ctx, s.ret, "prov")
@@ -525,7 +622,9 @@ type aggMock struct{ p *poolRt }
 
 func (m aggMock) Run(ctx context.Context, _ core.AggregatorDeps) error {
 	p := m.p
+	defer p.enter()()
 	s := p.spec.agg
+	p.blockIf("agg", 0)
 	if s.pos == "pre" {
 		return p.retOf(ctx, s.ret, "agg")
 	}
@@ -561,6 +660,7 @@ type gunBase struct {
 }
 
 func (g *gunBase) Bind(aggr core.Aggregator, deps core.GunDeps) error {
+	defer g.p.enter()()
 	g.p.c.hk.at("m.bind")
 	k := int(g.p.bindCalls.Add(1))
 	g.aggr = aggr
@@ -568,6 +668,7 @@ func (g *gunBase) Bind(aggr core.Aggregator, deps core.GunDeps) error {
 	if k == 1 {
 		g.p.c.hook(g.p.idx, "bind", 0)
 	}
+	g.p.blockIf("bind", k)
 	if k == g.p.spec.failBind {
 		return g.p.verr("bind")
 	}
@@ -578,9 +679,11 @@ func (g *gunBase) Bind(aggr core.Aggregator, deps core.GunDeps) error {
 }
 
 func (g *gunBase) Shoot(ammo core.Ammo) {
+	defer g.p.enter()()
 	g.p.c.hk.at("m.shot")
 	k := int(g.p.shotCalls.Add(1))
 	g.p.c.hook(g.p.idx, "shot", k)
+	g.p.blockIf("shot", k)
 	if g.p.spec.slow == "shot" && g.p.c.pl.cancel == "shot" && k == g.p.c.pl.cancelK {
 		time.Sleep(slowDelay)
 	}
@@ -608,8 +711,13 @@ func (g *gunBase) Shoot(ammo core.Ammo) {
 }
 
 func (g *gunBase) doClose() error {
+	defer g.p.enter()()
 	g.p.c.hk.at("m.close")
 	g.closes.Add(1)
+	if g.p.spec.slow == "close" {
+		time.Sleep(time.Duration(g.p.spec.slowMs) * time.Millisecond) // Close takes a while (and knows no context)
+	}
+	g.p.blockIf("close", int(g.p.closeCalls.Add(1)))
 	if c, ok := g.inner.(io.Closer); ok {
 		return c.Close()
 	}
@@ -617,8 +725,10 @@ func (g *gunBase) doClose() error {
 }
 
 func (g *gunBase) doWarm(o *warmup.Options) (interface{}, error) {
+	defer g.p.enter()()
 	g.p.c.hk.at("m.warm")
 	g.p.c.hook(g.p.idx, "warm", 0)
+	g.p.blockIf("warm", 0)
 	if g.p.spec.failWarm {
 		return nil, g.p.verr("warmup")
 	}
@@ -642,8 +752,10 @@ func (g gunCW) Close() error                                  { return g.doClose
 func (g gunCW) WarmUp(o *warmup.Options) (interface{}, error) { return g.doWarm(o) }
 
 func (p *poolRt) newGun() (core.Gun, error) {
+	defer p.enter()()
 	p.c.hk.at("m.newgun")
 	n := int(p.gunCalls.Add(1)) - 1
+	p.blockIf("newgun", n)
 	if n == p.spec.failNewGun {
 		return nil, p.verr("newgun")
 	}
@@ -696,8 +808,10 @@ func (p *poolRt) startup() core.Schedule {
 }
 
 func (p *poolRt) newSched() (core.Schedule, error) {
+	defer p.enter()()
 	p.c.hk.at("m.sched")
 	k := int(p.schedCall.Add(1))
+	p.blockIf("sched", k)
 	if k == p.spec.failSched {
 		return nil, p.verr("sched")
 	}
@@ -837,6 +951,18 @@ const maxLeaks = 8
 
 var leaks atomic.Int64
 
+// … and for runs that came back only when a blocking stub gave up
+var slows atomic.Int64
+
+func (pl *plan) hasBlk() bool {
+	for _, ps := range pl.pools {
+		if ps.blk != "" {
+			return true
+		}
+	}
+	return false
+}
+
 func runCase(input string) string {
 	pl, err := parsePlan(input)
 	if err != nil {
@@ -867,6 +993,13 @@ func runCase(input string) string {
 	defer cancel()
 	c := &caseRt{pl: pl, cancel: cancel, jit: rand.New(rand.NewSource(int64(pl.rep)*7919 + 17))}
 	c.hk = &hookRt{holds: pl.holds, cancel: pl.cancelAt, onCan: c.doCancel}
+	c.release = make(chan struct{})
+	c.blkMax = blkMax
+	if pl.cliVar == "T" {
+		c.blkMax = cliAwaitTimeout + 2*time.Second
+	}
+	c.poolsDone = func() int { return logs.FilterMessage("Pool run finished").Len() }
+	defer c.releaseStubs()
 	curHook.Store(c.hk)
 	defer curHook.Store(nil)
 
@@ -901,7 +1034,7 @@ func runCase(input string) string {
 		Request: &monitoring.Counter{}, Response: &monitoring.Counter{},
 		InstanceStart: &monitoring.Counter{}, InstanceFinish: &monitoring.Counter{},
 	}
-	cs := &cliState{sendDone: make(chan struct{})}
+	cs := &cliState{sendDone: make(chan struct{}), secondDone: make(chan struct{})}
 	log := zap.New(core_)
 	var e *engine.Engine
 	if pl.cli != "" {
@@ -934,6 +1067,7 @@ func runCase(input string) string {
 		case <-time.After(runTimeout):
 			hungRun = true
 		}
+		c.releaseStubs() // Engine.Run has returned (or never will): the blocking stubs may go on
 	} else {
 		// what cli.ReadConfigAndRunEngine does: Engine.Run in a goroutine (runEngine), then awaitPandoraTermination
 		// with the cancel of the run context as gracefulShutdown.  The harness sits between runEngine and the channel
@@ -957,9 +1091,22 @@ func runCase(input string) string {
 			defer close(fwdDone)
 			r := <-errs0
 			retAt.Store(time.Now().UnixNano())
+			switch pl.cliVar {
+			case "":
+				c.releaseStubs()
+			case "T":
+				// the tasks of the failed run need longer than the cli is willing to wait
+				time.AfterFunc(cliAwaitTimeout+400*time.Millisecond, c.releaseStubs)
+			}
 			resCh <- r
 			select {
 			case errs <- r:
+				if pl.cliVar == "2" {
+					// awaitPandoraTermination has the result and now waits for Engine.Wait, which the blocking stub
+					// holds up: the user insists
+					cs.secondStarted.Store(true)
+					go cs.sendSecond(pl.cli)
+				}
 			case <-cs.gone: // awaitPandoraTermination ended without reading the result
 			}
 		}()
@@ -981,6 +1128,7 @@ func runCase(input string) string {
 		case <-time.After(runTimeout):
 			cs.add("hang")
 		}
+		c.releaseStubs()
 		select {
 		case res = <-resCh:
 		case <-time.After(200 * time.Millisecond):
@@ -997,8 +1145,13 @@ func runCase(input string) string {
 	waited := make(chan struct{})
 	go func() { e.Wait(); close(waited) }()
 	waitOK := true
+	busy := int64(0)
 	select {
 	case <-waited:
+		// Engine.Wait has returned: nothing the engine started may still be at work
+		for _, p := range rts {
+			busy += p.busy.Load()
+		}
 	case <-time.After(waitTimeout):
 		waitOK = false
 	}
@@ -1054,7 +1207,7 @@ func runCase(input string) string {
 	} else {
 		b.WriteString(" wait=hang")
 	}
-	fmt.Fprintf(&b, " leak=%d", leak)
+	fmt.Fprintf(&b, " busy=%d leak=%d", busy, leak)
 
 	aw := make([][]string, len(rts))
 	mains := make([][]string, len(rts))
@@ -1122,9 +1275,22 @@ func runCase(input string) string {
 	}
 	sort.Strings(sup)
 	b.WriteString(" sup=" + joinOrDash(sup))
+	for _, ps := range pl.pools {
+		if ps.blk != "" {
+			switch {
+			case c.blkLate.Load() > 0:
+				b.WriteString(" blk=deadline")
+			case c.blkEntered.Load() > 0:
+				b.WriteString(" blk=run")
+			default:
+				b.WriteString(" blk=-")
+			}
+			break
+		}
+	}
 	if pl.cli != "" {
 		b.WriteString(" cli=" + joinOrDash(cs.events()))
-		fmt.Fprintf(&b, " csig=%d", b2i(cs.signalled()))
+		fmt.Fprintf(&b, " csig=%d", b2i(cs.signalled())+b2i(cs.second.Load()))
 	}
 	for i, p := range rts {
 		fmt.Fprintf(&b, " p%d.main=%s p%d.aw=%s", i, joinOrDash(mains[i]), i, joinOrDash(aw[i]))
@@ -1300,6 +1466,9 @@ func supervisedRun(input string) string {
 	if hangs.Load() >= maxHangs || supDeaths >= maxDeaths || leaks.Load() >= maxLeaks {
 		return "SKIPPED-AFTER-HANGS"
 	}
+	if pl.hasBlk() && slows.Load() >= maxSlows {
+		return "SKIPPED-AFTER-HANGS"
+	}
 	w := plainSup
 	if pl.needsInstr() {
 		w = instrSup
@@ -1355,6 +1524,9 @@ func supervisedRun(input string) string {
 			// leaked goroutines: every such case costs the full settle time; a few establish the violation
 			leaks.Add(1)
 			w.kill()
+		}
+		if strings.Contains(obs, " blk=deadline") {
+			slows.Add(1)
 		}
 		return obs
 	case <-time.After(childTimeout):
